@@ -93,6 +93,18 @@ CLAIMS = {
         "and the query is asked again with the recorded class excluded, so a new class (e.g. a field dropped from a digest) is still a VIOLATION. Ideal-crypto assumptions and "
         "the printable-ASCII restriction of witness text fields are listed in the evidence.",
    design='DESIGN.md §3 C06'),
+ 'C08': dict(
+   level='model_checking',
+   text="Membership kernel. (a) RoomAuthorisations::rooms_for_peer is executed from MIR on symbolic room histories, key and date, for every map order, and z3 shows a room is "
+        "listed exactly when the oracle says the key is an enabled admin / user / user admin at that date. (b) The first poll segment of the InboundQueryService::process_inbound "
+        "coroutine is executed for each of the 13 request kinds with a symbolic room, every allowed-room set over {R1,R2,R3}, symbolic bound key and conn_ready; every call "
+        "into GraphDatabaseService and every reply is an observable event: a data access naming room r implies r is allowed (and is the room that was checked), the room list "
+        "needs a bound key and conn_ready, the fingerprint goes only to the own key, a refused request is answered with success = false. (c) The first poll segments of "
+        "LocalPeerService::process_local_event: a room is admitted on a definition change only for a key that is an enabled member at that time. Sampled paths and "
+        "counterexamples are replayed natively: process_inbound against a real GraphDatabaseService, process_local_event through its real async fn.",
+   note="Only the code up to the first suspension of each handler is executed (every arm awaits the database); the SQL row filters by room behind the arms and the "
+        "maintenance of allowed_room across several events (no revocation while connected) are outside the claim. tokio Mutex::lock is modelled uncontended.",
+   design='DESIGN.md §3 C08'),
 }
 
 NA = {
